@@ -83,6 +83,37 @@ check('C16', 'bounded-exhaustive design-space enumeration; reported trial count 
       'each of the seven strategies (SMGen where it does not refuse) must have exactly that many entries in every column.',
       DESIGN_NOTE + '; designs the documentation gives no sequences (complete crossing impossible) are skipped', 'DESIGN.md section 4, C16')
 
+check('C01', 'bounded-exhaustive design-space enumeration x exhaustive exploration of solver answers (all models through fake CMSGen/UniGen at the import seam; IterateSATGen exhausted under 3 solver-answer orders)',
+      'For every design of strata S1-S6 every model of the compiled formula is returned once by enumerating fakes bound where the library imports '
+      'pycmsgen/pyunigen, and the IterateSATGen loop is exhausted with the real solver and with a scripted solver answering the smallest/largest '
+      'remaining model; every sequence decoded by the real pipeline must be in the brute-force reference set.', DESIGN_NOTE, 'DESIGN.md section 4, C01')
+
+check('C03', 'bounded-exhaustive design-space enumeration x all-SAT over all variables of the compiled formula',
+      'For every design of strata S1-S6 all satisfying assignments of the complete build_cnf formula are enumerated (blocking clauses over every '
+      'variable): #models must equal #distinct projections onto the trial-sequence variables, onto support_variables(), and onto the sampling set '
+      'save_cnf declares; every projection decodes.', 'pycryptosat as SAT oracle (truth-table cross-check <= 16 variables); <= 1500/20000 models per design',
+      'DESIGN.md section 4, C03')
+
+check('C04', 'bounded-exhaustive design-space enumeration x stateless DFS over every random draw of one RandomGen candidate (scripted PRNG seam, prefix replay)',
+      'For every design of strata S1-S6 the complete choice tree of random.randrange draws behind one candidate is explored on the real sampler; '
+      'every accepted candidate, post-processed by the real synthesize_trials, must be in the reference set.', DESIGN_NOTE + '; candidate trees <= 2500/40000 leaves',
+      'DESIGN.md section 4, C04')
+
+check('C05', 'bounded-exhaustive design-space enumeration x stateless DFS over every candidate index RandomGen can draw; bijection oracle',
+      'Same exploration as C04; the accepted candidates must be in bijection with the reference multiset (each valid sequence from exactly '
+      'multiplicity candidates) and the number of leaves must equal the number of keys the sampler believes it draws from.',
+      DESIGN_NOTE + '; candidate trees <= 2500/40000 leaves', 'DESIGN.md section 4, C05')
+
+check('C06', 'bounded-exhaustive design-space enumeration; real RandomGen exhausted under two PRNG seeds; reported count compared',
+      'For every design of strata S1-S6 whose candidate space is <= 3000/30000 keys RandomGen is asked for more sequences than exist under two '
+      'seeds: the returned multiset must equal the reference multiset and the call must return; for designs without any rejection-enforced '
+      'feature metrics[solution_count] must equal the number of valid sequences.', DESIGN_NOTE, 'DESIGN.md section 4, C06')
+
+check('C09', 'bounded-exhaustive design-space enumeration x requested counts {1,2,avail-1,avail,avail+1,2*avail} x 3 strategies',
+      'For every design of strata S1, S1x, S2, S4 with 1..120/600 solutions IterateSATGen, RandomGen and IterateGen are called with each requested '
+      'count: the number returned must be min(requested, available), no solution twice (identical prints at most multiplicity times), all valid.',
+      DESIGN_NOTE, 'DESIGN.md section 4, C09')
+
 
 def build():
     props = [json.loads(l) for l in (ROOT / 'properties.jsonl').read_text().splitlines() if l.strip()]
